@@ -1,4 +1,10 @@
-"""C20 - shutdown stops accepting but not answering; idle workers are reclaimed.   (pool part; the kernel-socket part is outside)
+"""C20 - shutdown stops accepting but not answering; idle workers are reclaimed.
+(what the operating system does with a closed listener / a removed socket file is outside; what tiny-http asks of it is inside)
+
+  server-drop           <Server as Drop>::drop from the MIR on a listener bound to an arbitrary address: flag raised first, one
+                        wake-up connection that arrives at the listener, UNIX socket file removed
+  accept-thread         the closure Server::from_listener spawns, captured from the MIR, against an arbitrary environment:
+                        ends after the first accept() that returns with the flag raised, closing listener and pool
 
   worker/contract       one worker loop from the MIR against an ARBITRARY environment (thread-modular): it exits only after a
                         timed wait that timed out with the queue empty (decided under the lock); it waits untimed only while
@@ -12,7 +18,7 @@ from mirsym.harness import Session
 from mirsym.interp import Unsupported, Interp, BoundHit, RustPanic
 from mirsym import bmc
 from mirsym.sync import World, TRACE, ThreadEnd, Captured
-from mirsym.models import MODELS
+from mirsym.models import MODELS, io_error
 from mirsym.report import Violation
 from props import c08
 from props.c08 import build_pool_model, startup_state, report_results
@@ -124,6 +130,241 @@ def worker_contract(L, rep, tier, seed, prop='C20'):
         rep.violation(Violation(prop, None, 'worker/contract/%s violated on path %s' % (label, sc), sc, 'worker/contract/' + label))
 
 
+def server_drop(L, rep, tier, seed):
+    """<Server as Drop>::drop from the MIR on a server listening on an ARBITRARY address (IPv4 / IPv6 with symbolic address and
+    port, or a UNIX path): the close flag is raised first, then one connection attempt is made that ARRIVES AT THE LISTENER
+    (same port and family; same address, or a local address when the listener is bound to the wildcard) -- that is what wakes
+    the accept thread so that it sees the flag --, and for a UNIX listener the socket file is removed; whatever the connection
+    attempt and the removal return, drop does not panic."""
+    from mirsym import netaddr
+    S = Session(L, rep, seed)
+    prog = L.prog
+    cands = [f for (tr, st, me), fs in prog.traitm.items() if tr == 'Drop' and st == 'Server' and me == 'drop' for f in fs]
+    if not cands:
+        rep.inconc('server-drop: <Server as Drop>::drop not found in the MIR')
+        return
+    f_drop = cands[0]
+    models = dict(MODELS)
+    models.update(netaddr.NET_MODELS)
+
+    def m_store(it, a, info):
+        netaddr.log(it).append(('store', netaddr.deref(it, a[0]), a[1]))
+        return unit()
+    models['Atomic::store'] = m_store
+    models['AtomicBool::store'] = m_store
+    FAMS = ['v4', 'v6', 'unix']
+
+    def h(ctx):
+        fam = FAMS[ctx.choose(3, 'family')]
+        it = S.interp(ctx, models=models)
+        it.extra_consts = netaddr.NET_CONSTS
+        flag = Opaque('close-flag')
+        path = Opaque('listen-path')
+        if fam == 'unix':
+            la = Enum('ListenAddr', 'Unix', prog.variant_index('ListenAddr', 'Unix'), [Struct('UnixSocketAddr', [path])])
+            lf = lip = lport = None
+        else:
+            lf = 4 if fam == 'v4' else 6
+            lip = ctx.fresh_bv('listen_ip', 32 if lf == 4 else 128)
+            lport = ctx.fresh_bv('listen_port', 16)
+            ctx.add(lport != 0)
+            if lf == 4:
+                # addresses a listener can be bound to: the wildcard or a unicast address (first octet not 0)
+                ctx.add(z3.Or(lip == 0, z3.Extract(31, 24, lip) != 0))
+            la = Enum('ListenAddr', 'IP', prog.variant_index('ListenAddr', 'IP'), [netaddr.sockaddr(lf, lip, lport)])
+        from mirsym.models import ArcObj
+        vals = {'close': ArcObj(flag), 'messages': ArcObj(Opaque('messages')), 'listening_addr': la}
+        names = prog.struct_field_names('Server')
+        if sorted(names) != sorted(vals):
+            raise Unsupported('Server has fields %r: the harness knows %r' % (names, sorted(vals)))
+        server = Struct('Server', [vals[n] for n in names])
+        cell = Cell(server)
+        ctx.event('witness', 'drop-' + fam)
+        sc = lambda m: {'kind': 'server-drop', 'family': fam,
+                        'listening': ({'ip': hex(m.eval(lip, True).as_long()), 'port': m.eval(lport, True).as_long()} if lf else 'unix path'),
+                        'calls': [render(m, e) for e in netaddr.log(it)]}
+
+        def render(m, e):
+            if e[0] == 'connect':
+                return 'connect(%s ip=%s port=%d)' % ('v4' if e[1] == 4 else 'v6', hex(m.eval(e[2], True).as_long()), m.eval(e[3], True).as_long())
+            return e[0]
+        try:
+            it.run_fn(f_drop, [Ref(cell, (), True)])
+        except RustPanic as p:
+            ctx.check_always(z3.BoolVal(False), 'drop-does-not-panic', lambda m: dict(sc(m), panic=p.msg[:100]))
+            return None
+        lg = netaddr.log(it)
+        stores = [i for i, e in enumerate(lg) if e[0] == 'store' and e[1] is flag]
+        conns = [i for i, e in enumerate(lg) if e[0] in ('connect', 'connect_unix')]
+        ok_flag = z3.BoolVal(False)
+        if stores:
+            ok_flag = z3.And(lg[stores[0]][2] if z3.is_bool(lg[stores[0]][2]) else lg[stores[0]][2] != 0,
+                             z3.BoolVal(not conns or stores[0] < conns[0]))
+        ctx.check_always(ok_flag, 'close-flag-raised-before-the-wake-up-connection', sc)
+        if fam == 'unix':
+            arrives = z3.BoolVal(any(lg[i][0] == 'connect_unix' and lg[i][1] is path for i in conns))
+            removed = z3.BoolVal(any(e[0] == 'remove_file' and e[1] is path for e in lg))
+            ctx.check_always(removed, 'unix-socket-file-removed', sc)
+        else:
+            arrives = z3.Or(*[netaddr.reaches(lf, lip, lport, lg[i][1], lg[i][2], lg[i][3]) for i in conns if lg[i][0] == 'connect']) \
+                if conns else z3.BoolVal(False)
+        ctx.check_always(arrives, 'wake-up-connection-arrives-at-the-listener', sc)
+        return True
+
+    S.run('server-drop', h, witnesses=['drop-v4', 'drop-v6', 'drop-unix'],
+          bound='<Server as Drop>::drop, sequential; listener bound to any IPv4 / IPv6 address and non-zero port (symbolic, full width) '
+                'or to a UNIX path; connect / remove_file succeed or fail')
+    seen = set()
+    for (label, sc, st, nm) in S.last_violations:
+        if label in seen:
+            continue
+        seen.add(label)
+        rep.violation(Violation('C20', None, 'server-drop/%s violated: %s' % (label, sc), sc, 'server-drop/' + label))
+
+
+class _Logged(Opaque):
+    """an environment object whose destruction is an observable of the accept thread (listener closed, pool dropped)"""
+
+    def __init__(self, kind, log):
+        Opaque.__init__(self, kind)
+        self.log = log
+
+    def on_drop(self, it, v=None):
+        self.log.append(('dropped', self.kind))
+
+
+def accept_loop(L, rep, tier, seed):
+    """the accept thread (the closure Server::from_listener hands to thread::spawn, captured from the MIR) against an ARBITRARY
+    environment: the close flag is raised by the environment at any moment (before a flag test, or while the thread sits in
+    accept()); every accept() returns a connection or an error. Obligations: at most ONE accept() returns after the flag was
+    raised (the one the wake-up connection of Server::drop ends; another call would block for ever and the listener would stay
+    open), the thread then terminates, and when it terminates the
+    listener is closed (new connection attempts are refused from then on) and the pool is dropped (idle workers retire, C20
+    worker/contract); every accepted connection is handed to the pool exactly once; an accept error is reported to the
+    application queue and ends the thread."""
+    from mirsym import netaddr, env
+    from mirsym.sync import SeqWorld, SEQ
+    from mirsym.interp import Blocked
+    S = Session(L, rep, seed)
+    prog = L.prog
+    f_from = c08.find_impl_fn(prog, 'Server', 'from_listener')
+    models = dict(MODELS)
+    models.update(SEQ)
+    models.update(netaddr.NET_MODELS)
+    nmax = 3 if tier == 'quick' else 5
+
+    def h(ctx):
+        world = SeqWorld(ctx)
+        log = []
+        st = {'raised': False, 'accepts_after_raise': 0, 'accepts': 0, 'flag': None}
+
+        def maybe_raise(it, where):
+            if not st['raised'] and ctx.choose(2, 'flag-raised-' + where) == 1:
+                st['raised'] = True
+                log.append(('flag_raised', where))
+
+        def m_spawn(it, a, info):
+            raise Captured(a[0])
+
+        def m_load(it, a, info):
+            o = netaddr.deref(it, a[0])
+            if st['flag'] is None or o is st['flag']:
+                st['flag'] = o
+                maybe_raise(it, 'before-test')
+                log.append(('test', st['raised']))
+                return z3.BoolVal(st['raised'])
+            return o.val
+
+        unix = ctx.choose(2, 'unix-listener') == 1
+
+        def m_local_addr(it, a, info):
+            if unix:
+                return Ok(Struct('UnixSocketAddr', [Opaque('listen-path')]))
+            return Ok(netaddr.sockaddr(4, ctx.fresh_bv('listen_ip', 32), ctx.fresh_bv('listen_port', 16)))
+
+        def m_accept(it, a, info):
+            st['accepts'] += 1
+            if st['accepts'] > nmax:
+                raise BoundHit('accept calls')
+            log.append(('accept',))
+            maybe_raise(it, 'before-or-during-accept')
+            if st['raised']:
+                # this call returns after the flag was raised: in reality only ONE such return is guaranteed (the wake-up
+                # connection Server::drop makes); a second call would block for ever
+                st['accepts_after_raise'] += 1
+            if ctx.choose(2, 'accept-result') == 1:
+                log.append(('accept_err',))
+                return Err(io_error('ConnectionRefused'))
+            from mirsym.harness import buf_from_exprs
+            eb = buf_from_exprs([], "const")
+            wire = env.Wire(ctx, eb.arr, eb.len, eb.maxlen, end="block")
+            wire.unix = unix
+            sock = env.SockObj(wire, 'UnixStream' if unix else 'TcpStream')
+            log.append(('accepted', st['accepts']))
+            peer = Struct('UnixSocketAddr', [None]) if unix else netaddr.sockaddr(4, ctx.fresh_bv('peer_ip', 32), ctx.fresh_bv('peer_port', 16))
+            return Ok(Struct('(tuple)', [sock, peer]))
+
+        def pool_new(it, args, f):
+            return _Logged('TaskPool', log)
+
+        def pool_spawn(it, args, f):
+            log.append(('dispatched', st['accepts']))
+            return unit()
+        lm = dict(models)
+        lm.update({'thread::spawn': m_spawn, 'spawn': m_spawn, 'Atomic::load': m_load, 'AtomicBool::load': m_load,
+                   'TcpListener::local_addr': m_local_addr, 'TcpListener::accept': m_accept,
+                   'UnixListener::local_addr': m_local_addr, 'UnixListener::accept': m_accept})
+        it = Interp(prog, ctx, lm, {'TaskPool::new': pool_new, 'TaskPool::spawn': pool_spawn})
+        it.extra_consts = netaddr.NET_CONSTS
+        ctx.data['interp'] = it
+        lv = 'Unix' if unix else 'Tcp'
+        listener = Enum('Listener', lv, prog.variant_index('Listener', lv), [_Logged('TcpListener', log)])
+        clo = None
+        try:
+            it.run_fn(f_from, [listener, NONE()])
+        except Captured as c:
+            clo = c.value
+        if clo is None:
+            raise Unsupported('Server::from_listener starts no thread')
+        del log[:]
+        sc = lambda m: {'kind': 'accept-thread', 'events': [' '.join(str(x) for x in e) for e in log]}
+        ended = False
+        try:
+            it.call_callable(clo, [])       # FnOnce: the body itself drops what it captured (listener, flag, queue)
+            ended = True
+        except BoundHit:
+            pass
+        except RustPanic as p:
+            ctx.check_always(z3.BoolVal(False), 'accept-thread-does-not-panic', lambda m: dict(sc(m), panic=p.msg[:100]))
+            return None
+        ctx.event('witness', 'ended' if ended else 'still-accepting')
+        if st['raised'] and ended:
+            ctx.event('witness', 'ended-after-flag')
+        ctx.check_always(z3.BoolVal(st['accepts_after_raise'] <= 1), 'no-second-accept-after-one-returned-with-the-flag-raised', sc)
+        if not ended:
+            # the bound on accept calls was reached: fine as long as the flag was not raised before the last two of them
+            return True
+        dropped = [e[1] for e in log if e[0] == 'dropped']
+        ctx.check_always(z3.BoolVal('TcpListener' in dropped), 'listener-closed-when-the-thread-ends', sc)
+        ctx.check_always(z3.BoolVal('TaskPool' in dropped), 'pool-dropped-when-the-thread-ends', sc)
+        acc = [e[1] for e in log if e[0] == 'accepted']
+        disp = [e[1] for e in log if e[0] == 'dispatched']
+        ctx.check_always(z3.BoolVal(acc == disp), 'every-accepted-connection-is-dispatched-once', sc)
+        err = any(e[0] == 'accept_err' for e in log)
+        ctx.check_always(z3.BoolVal(st['raised'] or err), 'thread-ends-only-on-flag-or-accept-error', sc)
+        return True
+
+    S.run('accept-thread', h, witnesses=['ended', 'ended-after-flag', 'still-accepting'],
+          bound='the accept-thread closure of Server::from_listener (TCP or UNIX listener, no TLS), <= %d accept() calls, each returning a '
+                'connection or an error; the close flag raised at an arbitrary point' % nmax)
+    seen = set()
+    for (label, sc, st_, nm) in S.last_violations:
+        if label in seen:
+            continue
+        seen.add(label)
+        rep.violation(Violation('C20', None, 'accept-thread/%s violated: %s' % (label, sc), sc, 'accept-thread/' + label))
+
+
 def drop_queries(enc):
     K = enc.K
     nf = z3.Not(enc.frontier_reached())
@@ -152,6 +393,8 @@ def run(L, rep, tier, seed):
     worker_contract(L, rep, tier, seed)
     drop_effect(L, rep, tier, seed)
     dispatch_wakes_one(L, rep, tier, seed)
+    server_drop(L, rep, tier, seed)
+    accept_loop(L, rep, tier, seed)
     if tier == 'quick' or os.environ.get('VERIF_C20_BMC') != '1':
         # the global drop-from-idle BMC (4 workers x clock) did not finish within 5 minutes per query in this sandbox; it is
         # kept as an opt-in experiment (VERIF_C20_BMC=1). The thread-modular obligations above carry the claim.
